@@ -368,6 +368,22 @@ fn parse_keypaths(s: &str) -> Vec<KeyPath<'static>> {
         })
         .collect()
 }
+fn show_keypaths(ks: &[KeyPath]) -> String {
+    let s = ks
+        .iter()
+        .map(|k| match k {
+            KeyPath::Index(i) => format!("i{}", i),
+            KeyPath::Name(n) => format!("n{}", hexs(n.as_bytes())),
+            KeyPath::QuotedName(n) => format!("q{}", hexs(n.as_bytes())),
+        })
+        .collect::<Vec<_>>()
+        .join(",");
+    if s.is_empty() {
+        "_".to_string()
+    } else {
+        s
+    }
+}
 fn unhex_raw(s: &str) -> Vec<u8> {
     if s.is_empty() {
         vec![]
@@ -1117,21 +1133,28 @@ fn run(op_full: &str, a: &[&str]) -> String {
             let jp = parse_jsonpath(a[0]);
             format!("ok {}", hex(format!("{}", jp).as_bytes()))
         }
-        "parse_key_paths" => match jsonb::keypath::parse_key_paths(&unhex(a[0])) {
-            Ok(kp) => {
-                let s = kp
-                    .paths
-                    .iter()
-                    .map(|k| match k {
-                        KeyPath::Index(i) => format!("i{}", i),
-                        KeyPath::Name(n) => format!("n{}", hexs(n.as_bytes())),
-                        KeyPath::QuotedName(n) => format!("q{}", hexs(n.as_bytes())),
-                    })
-                    .collect::<Vec<_>>()
-                    .join(",");
-                let s = if s.is_empty() { "_".to_string() } else { s };
-                format!("ok {} {}", s, hex(format!("{}", kp).as_bytes()))
+        "print_parse_json_path" => {
+            let jp = parse_jsonpath(a[0]);
+            let text = format!("{}", jp);
+            match jsonb::jsonpath::parse_json_path(text.as_bytes()) {
+                Ok(jp2) => {
+                    let mut s = String::new();
+                    show_paths(&jp2.paths, &mut s);
+                    format!("ok {} {}", s, hex(text.as_bytes()))
+                }
+                Err(_) => format!("err Other {}", hex(text.as_bytes())),
             }
+        }
+        "print_parse_key_paths" => {
+            let kp = jsonb::keypath::KeyPaths { paths: parse_keypaths(a[0]) };
+            let text = format!("{}", kp);
+            match jsonb::keypath::parse_key_paths(text.as_bytes()) {
+                Ok(kp2) => format!("ok {} {}", show_keypaths(&kp2.paths), hex(text.as_bytes())),
+                Err(_) => format!("err Other {}", hex(text.as_bytes())),
+            }
+        }
+        "parse_key_paths" => match jsonb::keypath::parse_key_paths(&unhex(a[0])) {
+            Ok(kp) => format!("ok {} {}", show_keypaths(&kp.paths), hex(format!("{}", kp).as_bytes())),
             Err(_) => "err Other".into(),
         },
         "print_key_paths" => {
@@ -1175,7 +1198,171 @@ fn run(op_full: &str, a: &[&str]) -> String {
             let back: Value = (&j).into();
             format!("ok {} ={}", sv(&back), back == v)
         }
+        // ---- witnesses of recorded findings that need large or paired inputs
+        "big_string" => {
+            let n: usize = a[0].parse().unwrap();
+            let v = Value::String(Cow::Owned("a".repeat(n)));
+            let b = v.to_vec();
+            match jsonb::from_slice(&b) {
+                Ok(Value::String(s)) => format!("ok {}", s.len()),
+                Ok(_) => "ok other-kind".into(),
+                Err(_) => "err Other".into(),
+            }
+        }
+        "big_array" => {
+            let n: usize = a[0].parse().unwrap();
+            let v = Value::Array(vec![Value::Null; n]);
+            let b = v.to_vec();
+            let al = match jsonb::array_length(&b) {
+                Some(k) => k.to_string(),
+                None => "none".into(),
+            };
+            format!("ok array_length={} is_array={}", al, jsonb::is_array(&b))
+        }
+        "key_vs_compare" => {
+            let (x, y) = (unhex(a[0]), unhex(a[1]));
+            let (mut kx, mut ky) = (vec![], vec![]);
+            jsonb::convert_to_comparable(&x, &mut kx);
+            jsonb::convert_to_comparable(&y, &mut ky);
+            match jsonb::compare(&x, &y) {
+                Ok(o) => format!("ok key={} compare={}", ord(kx.cmp(&ky)), ord(o)),
+                Err(_) => "err Other".into(),
+            }
+        }
+        // ---- C20: deeply nested documents, built here iteratively; nothing deep is printed or dropped by the harness
+        "deep" => deep(a[0], a[1].parse().unwrap(), a[2]),
         _ => format!("unknown-op {}", op),
+    }
+}
+
+fn deep_text(n: usize, kind: &str) -> Vec<u8> {
+    let mut t = Vec::with_capacity(n * 8 + 8);
+    for _ in 0..n {
+        t.extend_from_slice(if kind == "arr" { b"[" } else { b"{\"a\":" });
+    }
+    t.extend_from_slice(if kind == "arr" { b"[]" } else { b"null" });
+    for _ in 0..n {
+        t.push(if kind == "arr" { b']' } else { b'}' });
+    }
+    t
+}
+fn deep_bin(n: usize, kind: &str) -> Vec<u8> {
+    // innermost: [] or {"a":null}; every level wraps the previous payload in a one-element container
+    let mut inner: Vec<u8> = if kind == "arr" {
+        0x8000_0000u32.to_be_bytes().to_vec()
+    } else {
+        let mut v = 0x4000_0001u32.to_be_bytes().to_vec();
+        v.extend_from_slice(&0x1000_0001u32.to_be_bytes());
+        v.extend_from_slice(&0x0000_0000u32.to_be_bytes());
+        v.push(b'a');
+        v
+    };
+    // build outside-in by prepending is quadratic; instead compute sizes first, then write front to back
+    let per = if kind == "arr" { 8 } else { 13 };
+    let total = inner.len() + per * n;
+    let mut out = Vec::with_capacity(total);
+    let mut remaining = total;
+    for _ in 0..n {
+        remaining -= per;
+        if kind == "arr" {
+            out.extend_from_slice(&0x8000_0001u32.to_be_bytes());
+            out.extend_from_slice(&(0x5000_0000u32 | remaining as u32).to_be_bytes());
+        } else {
+            out.extend_from_slice(&0x4000_0001u32.to_be_bytes());
+            out.extend_from_slice(&0x1000_0001u32.to_be_bytes());
+            out.extend_from_slice(&(0x5000_0000u32 | remaining as u32).to_be_bytes());
+            out.push(b'a');
+        }
+    }
+    out.append(&mut inner);
+    out
+}
+fn deep(sub: &str, n: usize, kind: &str) -> String {
+    match sub {
+        "parse" => match jsonb::parse_value(&deep_text(n, kind)) {
+            Ok(v) => {
+                std::mem::forget(v);
+                "ok".into()
+            }
+            Err(_) => "err Other".into(),
+        },
+        "parse_drop" => match jsonb::parse_value(&deep_text(n, kind)) {
+            Ok(v) => {
+                drop(v);
+                "ok".into()
+            }
+            Err(_) => "err Other".into(),
+        },
+        "decode" => {
+            let b = deep_bin(n, kind);
+            match jsonb::from_slice(&b) {
+                Ok(v) => {
+                    std::mem::forget(v);
+                    "ok".into()
+                }
+                Err(_) => "err Other".into(),
+            }
+        }
+        "encode" => {
+            // the value is built bottom-up without recursion, encoded, and never dropped
+            let mut v: Value = if kind == "arr" { Value::Array(vec![]) } else { Value::Null };
+            for _ in 0..n {
+                v = if kind == "arr" {
+                    Value::Array(vec![v])
+                } else {
+                    let mut m = BTreeMap::new();
+                    m.insert("a".to_string(), v);
+                    Value::Object(m)
+                };
+            }
+            let out = v.to_vec();
+            std::mem::forget(v);
+            format!("ok {}", out.len())
+        }
+        "to_string" => format!("ok {}", jsonb::to_string(&deep_bin(n, kind)).len()),
+        "compare" => {
+            let b = deep_bin(n, kind);
+            match jsonb::compare(&b, &b) {
+                Ok(o) => format!("ok ={}", ord(o)),
+                Err(_) => "err Other".into(),
+            }
+        }
+        "get_by_path" => {
+            // $[*] ... a path with a filter on a deep document; the selector itself walks positions iteratively
+            let b = deep_bin(n, kind);
+            let jp = parse_jsonpath(if kind == "arr" { "R;B;B;Fe(C;B)" } else { "R;D61;W;Fe(C;D61)" });
+            let mut data = vec![];
+            let mut offs = vec![];
+            match jsonb::get_by_path(&b, jp, &mut data, &mut offs) {
+                Ok(()) => format!("ok {}", data.len()),
+                Err(_) => "err Other".into(),
+            }
+        }
+        "comparable" => {
+            let mut buf = vec![];
+            jsonb::convert_to_comparable(&deep_bin(n, kind), &mut buf);
+            format!("ok {}", buf.len())
+        }
+        "contains" => {
+            let b = deep_bin(n, kind);
+            format!("ok ={}", jsonb::contains(&b, &b))
+        }
+        "strip_nulls" => {
+            let mut buf = vec![];
+            match jsonb::strip_nulls(&deep_bin(n, kind), &mut buf) {
+                Ok(()) => format!("ok {}", buf.len()),
+                Err(_) => "err Other".into(),
+            }
+        }
+        "to_serde_json" => match jsonb::to_serde_json(&deep_bin(n, kind)) {
+            Ok(v) => {
+                std::mem::forget(v);
+                "ok".into()
+            }
+            Err(_) => "err Other".into(),
+        },
+        "traverse" => format!("ok ={}", jsonb::traverse_check_string(&deep_bin(n, kind), |s| s == b"zz")),
+        _ => "unknown-op deep".into(),
     }
 }
 
